@@ -18,6 +18,8 @@ class HeapBuilder:
         self.preset = dict(preset or {})  # python id -> heap id to reuse (post-state encoding keeps pre-state ids)
         self.keep = list(keep or [])
         self.next = next_id
+        self.mhas = z3.K(z3.IntSort(), z3.K(Z.Val, z3.BoolVal(False)))
+        self.mval = z3.K(z3.IntSort(), z3.K(Z.Val, Z.NONE))
         self.len_arr = z3.K(z3.IntSort(), z3.IntVal(0))
         self.item_arr = z3.K(z3.IntSort(), z3.K(z3.IntSort(), Z.NONE))
         self.fields = {}
@@ -110,6 +112,21 @@ class HeapBuilder:
                 arr = self.fields.get(f, z3.K(z3.IntSort(), Z.NONE))
                 self.fields[f] = z3.Store(arr, z3.IntVal(i), self.encode(v, fty))
             return Z.mk_ref(i)
+        from .types import TMap
+
+        if isinstance(ty, TMap):
+            if id(obj) in self.ids:
+                return Z.mk_ref(self.ids[id(obj)])
+            i = self.new_id(obj)
+            has = z3.K(Z.Val, z3.BoolVal(False))
+            val = z3.K(Z.Val, Z.NONE)
+            for k, v in obj.items():
+                kt = self.encode(k, ty.key) if ty.key is not None else self.term(k)
+                has = z3.Store(has, kt, z3.BoolVal(True))
+                val = z3.Store(val, kt, self.encode(v, ty.val) if ty.val is not None else self.term(v))
+            self.mhas = z3.Store(self.mhas, z3.IntVal(i), has)
+            self.mval = z3.Store(self.mval, z3.IntVal(i), val)
+            return Z.mk_ref(i)
         if isinstance(ty, TSeq):
             if id(obj) in self.ids:
                 return Z.mk_ref(self.ids[id(obj)])
@@ -127,6 +144,8 @@ class HeapBuilder:
         h = dict(self.fields)
         h["$len"] = self.len_arr
         h["$item"] = self.item_arr
+        h["$mhas"] = self.mhas
+        h["$mval"] = self.mval
         h.setdefault("$cls", z3.K(z3.IntSort(), z3.IntVal(0)))
         return h
 
